@@ -150,6 +150,14 @@ def cases(spec, ctx):
             a, b = b, tuple(a)
         yield {"kind": "random", "a": tuple(a), "sa": mrng.choice(G.STRANDS), "b": tuple(b), "sb": mrng.choice(G.STRANDS), "genome": g,
                "parent": mrng.choice(["none", "seq"]), "seed": mrng.randrange(1 << 30), "many": True}
+    # coordinates far beyond 2^31 / 2^53 (sequence-less operands)
+    for _ in range(sc["NR"] // (10 * n) + 1):
+        g = mrng.choice([10, 40, 200])
+        off = mrng.choice([(1 << 31) - 5, (1 << 31) + 7, (1 << 32) - 3, (1 << 53) + 11, 10 ** 12, (1 << 63) - 300])
+        a = tuple((s0 + off, e0 + off) for s0, e0 in G.rand_layout(mrng, g, 5, overlap=mrng.random() < 0.2))
+        b = tuple((s0 + off, e0 + off) for s0, e0 in G.rand_layout(mrng, g, 5, overlap=mrng.random() < 0.2))
+        yield {"kind": "random", "a": a, "sa": mrng.choice(G.STRANDS), "b": b, "sb": mrng.choice(G.STRANDS), "genome": g + off,
+               "parent": "none", "seed": mrng.randrange(1 << 30), "huge": True}
     if i == 0:
         # all-empty / empty-singleton operands
         yield {"kind": "unary", "blocks": ((3, 3), (5, 5)), "strand": "+", "genome": 8, "parent": "none"}
@@ -515,7 +523,8 @@ def run_case(case, ctx):
         equal = case["parent"] in ("none", "seq")
         binary(ctx, A, a, sa, B, b, sb, parents_equal=equal, tag=tag)
         glen = len(pa.sequence) if pa is not None and pa.sequence is not None else None
-        unary(ctx, A, a, sa, genome_len=glen, tag=tag)
+        if not case.get("huge"):     # the unary leg extends / shifts down to position 0: not enumerable for huge coordinates
+            unary(ctx, A, a, sa, genome_len=glen, tag=tag)
         return
     from bcv.core import HarnessError
 
